@@ -44,6 +44,11 @@ type C14Case struct {
 	// Build2 builds a second tensor of the same element type and shape with other values: byte formats encode it
 	// between encoding and decoding the source ("the caller keeps the first result while encoding something else")
 	Build2 []Op `json:"build2,omitempty"`
+	// Multi: the gob stream carries the second tensor and then the source on one encoder/decoder pair.
+	Multi bool `json:"multi,omitempty"`
+	// UsedDst: the source is decoded into a receiver that already holds the second tensor (masked,
+	// lazily transposed) instead of a fresh one.
+	UsedDst bool `json:"used_dst,omitempty"`
 }
 
 // ------------------------------------------------------------------------------------------------
@@ -264,6 +269,8 @@ func genC14(seed uint64) *C14Case {
 	}
 	b2.N = 0
 	cs.Build2 = []Op{b2}
+	cs.Multi = cs.Format == "gob" && r.Intn(3) == 0
+	cs.UsedDst = r.Intn(5) == 0
 	cs.PipeCap = []int{1, 2, 3, 7, 16, 64, 256}[r.Intn(7)]
 	cs.MaxChunk = []int{1, 1, 2, 3, 5, 8, 64, 0}[r.Intn(8)]
 	cs.ZeroRead = []int{0, 0, 0, 9, 30}[r.Intn(5)]
@@ -390,6 +397,11 @@ func recoverTo(err *error, what string) {
 
 type panicErr struct{ error }
 
+// c14Other (gob streams, Multi): a second tensor encoded on the same encoder before the source and decoded on
+// the same decoder before it. c14Receiver (UsedDst): a tensor that already holds other contents, into which the
+// source is decoded. Both are set by execC14 before the two tasks start.
+var c14Other, c14Receiver *tensor.Dense
+
 func encodeTo(format string, src *tensor.Dense, w io.Writer) (err error, panicked bool) {
 	defer func() {
 		if r := recover(); r != nil {
@@ -401,7 +413,13 @@ func encodeTo(format string, src *tensor.Dense, w io.Writer) (err error, panicke
 	}()
 	switch format {
 	case "gob":
-		return gob.NewEncoder(w).Encode(src), false
+		enc := gob.NewEncoder(w)
+		if c14Other != nil {
+			if err := enc.Encode(c14Other); err != nil {
+				return err, false
+			}
+		}
+		return enc.Encode(src), false
 	case "npy":
 		return src.WriteNpy(w), false
 	case "csv":
@@ -420,9 +438,27 @@ func decodeFrom(format string, dt tensor.Dtype, r io.Reader) (d *tensor.Dense, e
 		}
 	}()
 	d = new(tensor.Dense)
+	if c14Receiver != nil {
+		d = c14Receiver
+	}
 	switch format {
 	case "gob":
-		err = gob.NewDecoder(r).Decode(d)
+		dec := gob.NewDecoder(r)
+		if c14Other != nil {
+			first := new(tensor.Dense)
+			if err = dec.Decode(first); err != nil {
+				return d, err, false
+			}
+			// the first value of the stream must have arrived intact, and must stay intact while the
+			// second is decoded
+			before := snapOf(first)
+			err = dec.Decode(d)
+			if err == nil && (snapOf(first) != before || logicalEqual(c14Other, first, true, false, false) != "") {
+				err = fmt.Errorf("the first tensor of the stream was not delivered intact")
+			}
+			return d, err, false
+		}
+		err = dec.Decode(d)
 	case "npy":
 		err = d.ReadNpy(r)
 	case "csv":
@@ -454,6 +490,28 @@ func execC14(cs *C14Case, replay bool) *c14Result {
 	// gob carries the mask; npy and csv document that masked positions are written as the fill value
 	// (so only unmasked positions are compared); pb and fb have no mask field and write the raw
 	// elements, masked or not (so every element is compared and the mask is not)
+	c14Other, c14Receiver = nil, nil
+	if (cs.Multi || cs.UsedDst) && len(cs.Build2) > 0 {
+		b2 := cs.Build2[0]
+		b2.Out = 901
+		w.Exec(&b2)
+		if o := w.get(901); o != nil {
+			if cs.Multi {
+				c14Other = o
+			}
+			if cs.UsedDst {
+				rc := o.Clone().(*tensor.Dense)
+				if rc.Dims() >= 2 {
+					rc.T()
+				}
+				if !rc.IsScalar() {
+					rc.ResetMask(true)
+				}
+				c14Receiver = rc
+			}
+		}
+	}
+	defer func() { c14Other, c14Receiver = nil, nil }()
 	carriesMask := cs.Format == "gob" || cs.Format == "gobbytes"
 	skipMasked := cs.Format == "npy" || cs.Format == "csv"
 	judge := func(d *tensor.Dense, encErr, decErr error, encPanic, decPanic bool) {
@@ -483,6 +541,9 @@ func execC14(cs *C14Case, replay bool) *c14Result {
 		var encErr, decErr error
 		var encPanic, decPanic bool
 		d := new(tensor.Dense)
+		if c14Receiver != nil {
+			d = c14Receiver
+		}
 		func() {
 			defer func() {
 				if r := recover(); r != nil {
